@@ -240,6 +240,7 @@ func cmdCheck(args []string) {
 	repo := fs.String("repo", "/repo", "repository")
 	verif := fs.String("verif", "/verif", "verification directory")
 	keep := fs.Bool("keep", false, "keep smt files")
+	outDir := fs.String("out", "", "directory for evidence/ and replays/ (default: the verification directory; runs against a scratch copy of the repository write to a scratch directory)")
 	fs.Parse(args)
 	rest := fs.Args()
 	if len(rest) < 1 {
@@ -313,9 +314,20 @@ func cmdCheck(args []string) {
 	encs := encodeAndSolve(p, fns, opts, stats)
 	assignProps2(p, pre, encs)
 
+	// evidence and replay files of the registered checks live in /verif; a run against any other copy of the
+	// repository (self-tests with mutants) must not overwrite them
+	if *outDir == "" {
+		if filepath.Clean(*repo) == "/repo" {
+			*outDir = *verif
+		} else {
+			*outDir = filepath.Join(os.TempDir(), fmt.Sprintf("pvc-out-%d", os.Getpid()))
+			defer os.RemoveAll(*outDir)
+		}
+	}
+	replayRoot = filepath.Join(*outDir, "replays")
 	res := evaluate(p, pd, encs, lists, tier, seed, stats, opts)
 	res.wall = time.Since(t0).Seconds()
-	writeEvidence(*verif, p, pd, res, tier, seed, stats)
+	writeEvidence(*outDir, p, pd, res, tier, seed, stats)
 	for _, l := range res.lines {
 		fmt.Println(l)
 	}
